@@ -249,6 +249,11 @@ def check_chained_replacement(ctx: Ctx):
 
 
 def check(ctx: Ctx):
+    # instance counts and label tuples come from the label enumeration helpers (R09.6)
+    from . import c03 as _c03e
+    from .labelenum import check_label_enumeration as _cle
+
+    _c03e._guarded(ctx, "R09.6", _cle)
     check_chained_replacement(ctx)
     check_relabel(ctx)
     # dtype chosen after approximation (anchored in C04 as well): selector capacity + plumbing
